@@ -5,7 +5,7 @@
    every spelling reads back to the same items/forest, hence (all outputs being functions of the
    forest) to the same results; the harness replays every spelled document and compares bytes. *)
 EXTENDS MC_Doc
-C15_Names == { <<"a">>, <<"a", "SP", "PL", "b">> }
+C15_Names == { <<"a">>, <<"a", "SP", "PL", "b">>, <<"b", "HY", "a">> }
 Base == [unit |-> <<"SP", "SP">>, heading |-> FALSE, crlf |-> FALSE, bullets |-> {"HY"}, blanks |-> FALSE]
 C15_Sigma == {
   Base,
@@ -22,6 +22,7 @@ C15_Sigma == {
   [Base EXCEPT !.blanks = TRUE],
   [Base EXCEPT !.blanks = TRUE, !.heading = TRUE, !.crlf = TRUE]
 }
-C15_Blank == { <<>>, <<"SP", "TAB">>, <<"CR">> }
+C15_Blank == { <<>>, <<"SP", "TAB">>, <<"CR">>, <<"SP">>, <<"SP", "SP", "SP">> }
+C15_Blank3 == { <<>>, <<"SP", "TAB">>, <<"SP", "SP", "SP">> }
 C15_Pool  == { <<>> }
 =============================================================================
